@@ -16,6 +16,7 @@ def race_stress(tier, seed, workdir, root, repo, goenv, build_harness, sh, log, 
         return ([{"prop": "C09", "idx": -1, "step": -1, "msg": "race harness does not build: " + errs[-1500:], "component": None}], cov)
     g, n, rounds = (8, 300, 2) if tier == "quick" else (16, 1500, 8)
     hits = []
+    nscen = 9
     total_races = 0
     t0 = time.time()
     for r in range(rounds):
@@ -23,6 +24,9 @@ def race_stress(tier, seed, workdir, root, repo, goenv, build_harness, sh, log, 
         p = subprocess.run([bins["race"], "-g", str(g), "-n", str(n), "-seed", str(seed + r)], stdout=subprocess.PIPE,
                            stderr=subprocess.STDOUT, text=True, env=env, timeout=1800)
         races = len(re.findall(r"WARNING: DATA RACE", p.stdout))
+        ms = re.search(r"race-stress: (\d+) scenarios", p.stdout)
+        if ms:
+            nscen = int(ms.group(1))
         total_races += races
         lost = re.findall(r"LOST-UPDATE (.*)", p.stdout)
         if p.returncode != 0 or races or lost:
@@ -35,10 +39,10 @@ def race_stress(tier, seed, workdir, root, repo, goenv, build_harness, sh, log, 
             hits.append({"prop": "C09", "idx": r, "step": -1, "msg": msg, "component": None,
                          "race_report": first, "schedule": {"goroutines": g, "requests": n, "seed": seed + r}})
             break
-    cov["race_stress"] = {"rounds": rounds, "goroutines": g, "requests_per_goroutine": n, "scenarios": 8,
+    cov["race_stress"] = {"rounds": rounds, "goroutines": g, "requests_per_goroutine": n, "scenarios": nscen,
                           "race_reports": total_races, "wall_s": round(time.time() - t0, 1)}
-    cov["evaluations"] = rounds * 8
-    cov["distinct_nontrivial"] = rounds * 8
+    cov["evaluations"] = rounds * nscen
+    cov["distinct_nontrivial"] = rounds * nscen
     cov["samples"] = [{"scenario": "G goroutines x N requests through each middleware and a stack of all of them, with "
                                    "UpsertServer/RemoveServer/Servers/ServerWeight/String/metrics getters in parallel",
                        "goroutines": g, "requests": n}]
@@ -55,7 +59,7 @@ SPEC = {
     "translators": ("consts", "lockset"),
     "extra": race_stress,
     "rule": "the generated access table is checked exhaustively (all pairs of classes) inside Coq; the race stress runs "
-            "8 scenarios x rounds under the Go race detector with exact-total checks; distinct = (scenario, round)",
+            "9 scenarios x rounds under the Go race detector with exact-total checks; distinct = (scenario, round)",
     "trusted_base": ["tools/lockset translator: access-path abstraction of the Go source (roots = exported methods of the "
                      "middleware types, per-request objects not shared, type-level locations for objects reached through "
                      "call results, interface calls followed only for oxy interfaces, logger calls are no-ops)",
